@@ -105,6 +105,17 @@ def record_class(rid, rcls, cmds, bitnames):
             for t in (repr(r), format(r), "%s" % (r,), "%r" % (r,), "{}".format(r), str([r]), str({"a": r})):
                 if not isinstance(t, str):
                     sres = "exc:nonstr"
+            # renderings with a format specification: whether these are supported at all is the library's choice (TypeError
+            # today), but if an answer is rendered, MissingResponse / ResponseError must not come out of it
+            from dali.exceptions import MissingResponse, ResponseError
+            for spec in ("<24", ">12", "10", "3d", "s", "^8"):
+                for how in (lambda: format(r, spec), lambda: ("{:%s}" % spec).format(r)):
+                    try:
+                        how()
+                    except (MissingResponse, ResponseError) as e:
+                        sres = "exc:" + type(e).__name__
+                    except Exception:
+                        pass
         except Exception as e:  # noqa
             sres = "exc:" + type(e).__name__
         cells.append({"raw": raw, "vk": vk, "vi": vi, "vn": vn, "status": status, "err": err,
